@@ -902,7 +902,7 @@ def remap_by_types(
                         "valid."
                     )
                 index = _slice.value
-                if len(t_node.value.elts) <= index:
+                if not (-len(t_node.value.elts) <= index < len(t_node.value.elts)):
                     raise ValueError(f"Index {index} out of range for {ast.dump(node.value)}")
                 self._found_types[node] = self.lookup_type(t_node.value.elts[index])
                 self._found_types[t_node] = self.lookup_type(t_node.value.elts[index])
